@@ -12,4 +12,7 @@ for f in Exe_C*.lean; do
   fi
   rm -f /tmp/setup_$p.log
 done
+# the library root (imports every module: also catches name clashes between modules of one property)
+lake build LimnoriaModel >/tmp/setup_root.log 2>&1 || { echo 'setup: building the library root failed'; tail -5 /tmp/setup_root.log; }
+rm -f /tmp/setup_root.log
 exit 0
